@@ -192,6 +192,13 @@ class Check:
                                     broken=self.broken[:20], replay_cmd=f"./check {self.pid} --replay {path}"))
             lines.append(f"VIOLATION property={self.pid} replay={path} no-failing-input-found")
             violations = len(self.broken)
+        try:
+            from .checks import drvcommon as _D
+            if _D.SKIPPED_RAISES:
+                self.notes.append("runs skipped because search() raised or hit the watchdog (claimed by C03/C15/C08, not by this check): %d, e.g. %s"
+                                  % (len(_D.SKIPPED_RAISES), sorted(set(_D.SKIPPED_RAISES))[:4]))
+        except Exception:
+            pass
         ev = dict(
             property_id=self.pid, tier=C.tier() if C.tier() in ("quick", "thorough") else "quick", seed=C.seed(), level="proof",
             coverage=dict(
